@@ -47,7 +47,15 @@ type senGen struct {
 }
 
 func (g *senGen) sep(b *strings.Builder) {
-	switch sim.Intn(g.t, 8, "sep") {
+	switch sim.Intn(g.t, 12, "sep") {
+	case 8:
+		b.WriteByte('\t')
+	case 9:
+		b.WriteString("\r\n")
+	case 10:
+		b.WriteString("\t,\t")
+	case 11:
+		b.WriteString(" \r")
 	case 0:
 		b.WriteByte(' ')
 	case 1:
@@ -75,7 +83,15 @@ func (g *senGen) sep(b *strings.Builder) {
 }
 
 func (g *senGen) ows(b *strings.Builder) {
-	switch sim.Intn(g.t, 6, "ows") {
+	switch sim.Intn(g.t, 10, "ows") {
+	case 6:
+		b.WriteByte('\t')
+	case 7:
+		b.WriteString("\r\n")
+	case 8:
+		b.WriteByte('\r')
+	case 9:
+		b.WriteString(" \t ")
 	case 1:
 		b.WriteByte(' ')
 	case 2:
